@@ -82,6 +82,165 @@ def run(fx, R, tier):
                 else:
                     R.undecided('N2', short_fn(cq) + '::computeNormalReliability', 'formula not recognised: %s' % (v,))
     check_kdtree(fx, R)
+    check_flip_helper(fx, R)
+
+
+class _Vec(object):
+    """a concrete small vector for the step evaluator (value semantics)"""
+    def __init__(self, v):
+        self.v = [float(x) for x in v]
+
+    def __mul__(self, k):
+        return _Vec([x * float(k) for x in self.v])
+    __rmul__ = __mul__
+
+    def __truediv__(self, k):
+        from ..mini import _div
+        return _Vec([_div(x, float(k)) for x in self.v])
+
+    def __neg__(self):
+        return _Vec([-x for x in self.v])
+
+    def __add__(self, o):
+        return _Vec([a + b for a, b in zip(self.v, o.v)])
+
+    def __sub__(self, o):
+        return _Vec([a - b for a, b in zip(self.v, o.v)])
+
+    def dot(self, o):
+        if len(self.v) != len(o.v):
+            raise ValueError('sizes')
+        return sum(a * b for a, b in zip(self.v, o.v))
+
+
+def _vec_step():
+    import math
+    from .. import mini
+    stp = mini.Step(deep_unwrap)
+
+    def vec(t, env):
+        v = stp.ev(t, env)
+        if not isinstance(v, _Vec):
+            raise mini.Unsupported('not a vector: %s' % (t,))
+        return v
+    stp.hooks['.dot'] = lambda t, env: vec(t[1], env).dot(vec(t[2], env))
+    stp.hooks['.norm'] = lambda t, env: math.sqrt(vec(t[1], env).dot(vec(t[1], env)))
+    stp.hooks['.squaredNorm'] = lambda t, env: vec(t[1], env).dot(vec(t[1], env))
+    stp.hooks['.normalized'] = lambda t, env: vec(t[1], env) / math.sqrt(vec(t[1], env).dot(vec(t[1], env)))
+    stp.hooks['.head'] = lambda t, env: _Vec(vec(t[1], env).v[:int(stp.ev(t[2], env))]) if len(t) == 3 else (_ for _ in ()).throw(mini.Unsupported('head'))
+    stp.hooks['.tail'] = lambda t, env: _Vec(vec(t[1], env).v[-int(stp.ev(t[2], env)):]) if len(t) == 3 else (_ for _ in ()).throw(mini.Unsupported('tail'))
+    stp.hooks['.x'] = lambda t, env: vec(t[1], env).v[0]
+    stp.hooks['.y'] = lambda t, env: vec(t[1], env).v[1]
+    stp.hooks['.z'] = lambda t, env: vec(t[1], env).v[2]
+    stp.hooks['.w'] = lambda t, env: vec(t[1], env).v[3]
+
+    def quot(t, env):
+        a, b = stp.ev(t[1], env), stp.ev(t[2], env)
+        return a / b if isinstance(a, _Vec) else mini._div(a, b)
+    stp.hooks['/'] = quot
+
+    def elem(t, env):
+        a = stp.ev(t[1], env)
+        return a.v[int(stp.ev(t[2], env))] if isinstance(a, _Vec) else (_ for _ in ()).throw(mini.Unsupported('subscript'))
+    stp.hooks['[]'] = elem
+    stp.hooks['()'] = elem
+    return stp
+
+
+def check_flip_helper(fx, R):
+    """N7 (E-STEP): the orientation helper, evaluated on concrete points and unit normals.  The normal handed to it holds the eigenvector in its CARTESIAN entries only (compute() copies CARTESIAN_DIM
+    entries); any further entry of the point type (the homogeneous coordinate) still holds what the caller's buffer held - 1 for a NormalSet built the ordinary way, NormalSet<PointType>(N).  After the
+    helper the cartesian part of the normal must be +-the eigenvector with a non-positive projection on the point, whatever the unit of length of the cloud."""
+    import re
+    from .. import mini
+    fs = sorted((g for g in fx.functions.values() if g.get('name') == 'flipNormalTowardOriginCoordinate' and g.get('body') is not None and len(g.get('params', [])) == 2), key=lambda g: g['q'])
+    if not fs:
+        R.undecided('N7', 'flipNormalTowardOriginCoordinate', 'no instantiation of the orientation helper found (the orientation may be written in place: judged by N1)')
+        return
+    for g in fs:
+        R.used(g)
+        ts = g['params'][0]['t']['s']
+        mm = re.search(r'Eigen::Matrix<(?:float|double), (\d), 1', ts)
+        hh = re.search(r'HomogeneousCoordinates(\d)<', ts)
+        if mm:
+            D = SZ = int(mm.group(1))
+        elif hh:
+            D = int(hh.group(1))
+            SZ = D + 1
+        else:
+            R.undecided('N7', 'flipNormalTowardOriginCoordinate<%s>' % ts[:60], 'point type not recognised')
+            continue
+        inst = 'flipNormalTowardOriginCoordinate<%s>' % short_fn(ts.replace('const ', '').rstrip(' &'))
+        loc = fx.rel(g['loc'])
+        pn, nn_ = g['params'][0]['name'], g['params'][1]['name']
+        base_p = [0.3, 0.4, 1.2][:D]
+        bads, why = [], None
+        n_w = 0
+        for scale, unit in ((1.0, 'expressed with coordinates 0.3 .. 1.2'), (1e-4, 'expressed in a unit 1e4 times larger (coordinates of 3e-5 .. 1.2e-4)'), (1e3, 'expressed in a unit 1e3 times smaller (coordinates 300 .. 1200)')):
+            for facing in (+1, -1):
+                for wn in ((0.0, 1.0, -1.0) if SZ > D else (None,)):
+                    nrm = math_sqrt(sum(x * x for x in base_p))
+                    ncart = [facing * x / nrm for x in base_p]                    # unit normal, projection on the point = facing * |p| * scale
+                    # a second, oblique normal whose projection on the point is small (|n . p| = 0.5 |p|): still unit
+                    for obl in (False, True):
+                        if obl:
+                            if D == 2:
+                                c_, s_ = 0.5, math_sqrt(0.75)
+                                u = [base_p[0] / nrm, base_p[1] / nrm]
+                                ncart = [facing * (c_ * u[0] - s_ * u[1]), facing * (s_ * u[0] + c_ * u[1])]
+                            else:
+                                u = [x / nrm for x in base_p]
+                                t_ = [u[1], -u[0], 0.0]
+                                tn = math_sqrt(sum(x * x for x in t_))
+                                t_ = [x / tn for x in t_]
+                                ncart = [facing * (0.5 * a + math_sqrt(0.75) * b) for a, b in zip(u, t_)]
+                        pv = [x * scale for x in base_p] + ([1.0] if SZ > D else [])
+                        nv = list(ncart) + ([wn] if SZ > D else [])
+                        env = {pn: _Vec(pv), nn_: _Vec(nv)}
+                        stp = _vec_step()
+                        try:
+                            stp.call(g['body'], env)
+                        except (mini.Unsupported, ValueError, TypeError, IndexError, ZeroDivisionError, OverflowError) as e:
+                            why = why or str(e)[:160]
+                            continue
+                        out = env.get(nn_)
+                        if not isinstance(out, _Vec) or len(out.v) != SZ:
+                            why = why or 'the normal is not a vector after the helper'
+                            continue
+                        n_w += 1
+                        oc = out.v[:D]
+                        proj = sum(a * b for a, b in zip(oc, pv[:D]))
+                        same = all(abs(a - b) < 1e-12 for a, b in zip(oc, ncart)) or all(abs(a + b) < 1e-12 for a, b in zip(oc, ncart))
+                        if not same:
+                            bads.append(('the cartesian part of the normal comes back as %s for the unit eigenvector %s: not +-the eigenvector' % (['%.4g' % x for x in oc], ['%.4g' % x for x in ncart]), unit, wn, scale))
+                        elif proj > 0:
+                            bads.append(('for the point %s and the unit eigenvector %s (projection %+.3g on the line of sight, i.e. the eigenvector %s) the normal comes back as %s: its projection on the point is '
+                                          '%+.3g > 0, it points AWAY from the sensor' % (['%.4g' % x for x in pv[:D]], ['%.4g' % x for x in ncart], sum(a * b for a, b in zip(ncart, pv[:D])),
+                                                                                         'already faces the sensor' if sum(a * b for a, b in zip(ncart, pv[:D])) < 0 else 'faces away and must be negated',
+                                                                                         ['%.4g' % x for x in oc], proj), unit, wn, scale))
+        # the ordinary buffer (homogeneous entry 1, metres) first
+        bad = next((b_ for b_ in bads if b_[2] in (None, 1.0) and b_[3] == 1.0), None) or next((b_ for b_ in bads if b_[2] in (None, 1.0, 0.0)), None) or (bads[0] if bads else None)
+        if bad:
+            hom = ''
+            if bad[2] is not None and bad[2] != 0.0:
+                hom = (' The point type has %d entries for %d cartesian coordinates: compute() writes the eigenvector into the first %d entries of normals[n] only, entry %d keeps what the caller\'s buffer held (%g here; '
+                       'a NormalSet<PointType>(N) built the ordinary way holds 1), and the helper\'s test runs over ALL entries, so normal_w * point_w = %g is added to the projection and decides the sign whenever '
+                       '|normal . point| is below it (a wall closer than one unit of length).' % (SZ, D, D, D, bad[2], bad[2]))
+            elif bad[3] != 1.0:
+                hom = ' The same cloud as for the other witnesses, %s: the property has no unit of length, and the helper compares a length of the cloud with an absolute number.' % bad[1]
+            R.violated('N7', 'flipNormalTowardOriginCoordinate:%s' % ('homogeneous-entry' if (bad[2] not in (None, 0.0)) else 'orientation'), '%s [%s].%s' % (bad[0], inst, hom), loc, 'E-STEP')
+        elif why and not n_w:
+            R.undecided('N7', inst, 'orientation helper not evaluable: %s' % why)
+        elif why:
+            R.undecided('N7', inst, 'orientation helper not evaluable on some witnesses: %s' % why)
+        else:
+            R.holds('N7', inst, '%d witness (point, unit eigenvector%s) pairs at three scales: the cartesian part comes back as +-the eigenvector with a non-positive projection on the point' % (
+                n_w, ', previous homogeneous entry' if SZ > D else ''), loc, 'E-STEP')
+
+
+def math_sqrt(x):
+    import math
+    return math.sqrt(x)
 
 
 def dim_of(cq):
@@ -192,6 +351,25 @@ def check_compute(fx, R, cq, cname, f):
         R.undecided('N1', inst + ':flip', 'no write of normals[n] recognised: %s' % (body,))
     elif (not flips or max(writes) > max(flips)) and any(mentions_normal(s_, n) and s_ != flip and not writes_normal(s_, n) for s_ in body[max(writes) + 1:]):
         R.undecided('N1', inst + ':flip', 'the normal is treated after its write in a form that is not the enumerated flip call: %s' % ([s_ for s_ in body[max(writes) + 1:] if mentions_normal(s_, n)],))
+    elif not flips and inline_orientation(L, body, n, writes) is not None:
+        io = inline_orientation(L, body, n, writes)
+        site = '%s::%s:inline-orientation' % (short_fn(cq.split('<')[0]), 'compute/' + str(len(names)) + 'args')
+        if io[0] != 'form':
+            R.undecided('N1', inst + ':flip', 'the normal is written together with an orientation derived from the point, in a form that is not enumerated: %s' % (io[1],))
+        else:
+            _k, P_, F_, vals = io
+            if vals is None:
+                R.undecided('N1', inst + ':flip', 'the orientation factor %s is not evaluable' % (F_,))
+            elif vals[1.0] != -1 or vals[-1.0] != 1:
+                R.violated('N1', site, 'in %s the normal is the eigenvector times the factor %s of its projection `%s` onto the line of sight: that factor is %s for a positive projection (the eigenvector points away from '
+                           'the sensor; it must become -1) and %s for a negative one (must stay +1): normals of this overload are not oriented toward the sensor' % (inst, F_, P_, vals[1.0], vals[-1.0]), loc, 'E-STEP')
+            elif vals[0.0] not in (1, -1):
+                R.violated('N1', site, 'in %s the normal is the eigenvector times the factor %s of its projection `%s` onto the line of sight: for a projection of exactly 0 the factor is %s, so the stored normal is the '
+                           'eigenvector scaled by it - not a unit vector (the helper this replaces leaves the vector unchanged in that case).  A projection of exactly zero is what a point gets whose fitted plane passes '
+                           'through the sensor: a planar scan stored in a 3D type (z = 0 everywhere: the normal is +-z and every point is orthogonal to it), a ground patch at sensor height, a wall seen edge-on' % (
+                               inst, F_, P_, vals[0.0]), loc, 'E-STEP')
+            else:
+                R.holds('N1', inst + ':flip', 'the normal is the eigenvector times a factor of its projection onto the line of sight that is -1 for positive, +1 for negative and %s for zero projections' % vals[0.0], loc, 'E-STEP')
     elif not flips or max(writes) > max(flips):
         R.violated('N1', '%s::%s:flip' % (short_fn(cq.split('<')[0]), 'compute/' + str(len(names)) + 'args'), 'in %s the normal written at statement %d of the iteration is not followed by flipNormalTowardOriginCoordinate(points[n], normals[n]) '
                    '(statements: %s): normals of this overload are not oriented toward the sensor' % (inst, max(writes), [s[0] if isinstance(s, tuple) else s for s in body]), loc, 'E-STATE')
@@ -266,6 +444,61 @@ def _sizes(t):
             return _sizes(t[1])
         return tuple(_sizes(x) for x in t)
     return t
+
+
+def _occurs(t, what):
+    if t == what:
+        return True
+    return isinstance(t, tuple) and any(_occurs(x, what) for x in t)
+
+
+def inline_orientation(L, body, n, writes):
+    """The last write of normals[n] carries its own orientation (no call of the flip helper): None when the written value does not depend on the point at all;
+    ('form', projection, factor, {1.0: f, -1.0: f, 0.0: f}) for `eigenvector * factor(projection)` with projection = eigenvector . point; ('unknown', text) otherwise."""
+    stm = L['b']['s'] if L['b']['k'] == 'Compound' else [L['b']]
+    decls = {}
+    for x in stm:
+        if x['k'] == 'Decl':
+            for v in x['vars']:
+                if v.get('init') is not None:
+                    decls[v['name']] = deep_unwrap(sx(v['init']))
+    w = body[max(writes)]
+    if not (isinstance(w, tuple) and w[0] == '=' and len(w) == 3):
+        return None
+    rhs = w[2]
+    pt = ('[]', 'points', n)
+    tainted = [nm for nm, e in decls.items() if _occurs(e, pt)]
+    uses = [nm for nm in tainted if _occurs(rhs, nm)]
+    if not uses and not _occurs(rhs, pt):
+        return None
+    if len(uses) != 1 or _occurs(rhs, pt) or not (isinstance(rhs, tuple) and rhs[0] == '*' and len(rhs) == 3):
+        return ('unknown', str(rhs)[:200])
+    P = uses[0]
+    V, F = (rhs[1], rhs[2]) if _occurs(rhs[2], P) else (rhs[2], rhs[1])
+    pe = decls[P]
+    ev0 = ('.col', 'this.eigenVectors_', 0)
+    okp = isinstance(pe, tuple) and pe[0] == '.dot' and len(pe) == 3 and ((pe[1] == ev0 and _occurs(pe[2], pt)) or (pe[2] == ev0 and _occurs(pe[1], pt)))
+    if V != ev0 or _occurs(V, P) or not okp:
+        return ('unknown', '%s with %s = %s' % (str(rhs)[:160], P, str(pe)[:120]))
+    from .. import mini
+    vals = {}
+    for pv in (1.0, -1.0, 0.0):
+        try:
+            v_ = mini.Step(deep_unwrap).ev(F, {P: pv})
+            vals[pv] = int(v_) if isinstance(v_, bool) else v_
+        except (mini.Unsupported, TypeError, ZeroDivisionError):
+            return ('form', '%s = %s' % (P, pp_sx(pe)), pp_sx(F), None)
+    return ('form', '%s = %s' % (P, pp_sx(pe)), pp_sx(F), vals)
+
+
+def pp_sx(t):
+    if isinstance(t, tuple) and len(t) == 3 and t[0] in ('+', '-', '*', '/', '<', '>', '<=', '>=', '==', '!='):
+        return '(%s %s %s)' % (pp_sx(t[1]), t[0], pp_sx(t[2]))
+    if isinstance(t, tuple) and t and isinstance(t[0], str) and t[0].startswith('.'):
+        return '%s%s(%s)' % (pp_sx(t[1]), t[0], ', '.join(pp_sx(x) for x in t[2:]))
+    if isinstance(t, tuple) and len(t) == 3 and t[0] == '[]':
+        return '%s[%s]' % (pp_sx(t[1]), pp_sx(t[2]))
+    return str(t)
 
 
 def mentions_normal(s, n):
